@@ -75,8 +75,12 @@ func (descriptor BundleDescriptor) Sync() error {
 	} else if len(descriptor.Constraints) == 0 {
 		return descriptor.store.Delete(descriptor.Id)
 	} else {
+		// A bundle whose dispatching is still pending waits for a retry as well: the epidemic routing
+		// leaves a bundle in this state when no new peer is connected, and the next Sync (e.g., when the
+		// same bundle is received again) must not take it out of the pending bundles.
 		bi.Pending = !descriptor.HasConstraint(ReassemblyPending_) &&
-			(descriptor.HasConstraint(ForwardPending) || descriptor.HasConstraint(Contraindicated))
+			(descriptor.HasConstraint(ForwardPending) || descriptor.HasConstraint(Contraindicated) ||
+				descriptor.HasConstraint(DispatchPending))
 
 		bi.Properties["bundlepack/receiver"] = descriptor.Receiver
 		bi.Properties["bundlepack/timestamp"] = descriptor.Timestamp
